@@ -358,7 +358,7 @@ parser! {
 				--
 				a:(@) _ binop(<"|">) _ b:@ {expr_bin!(a BitOr b)}
 				--
-				a:@ _ binop(<"^">) _ b:(@) {expr_bin!(a BitXor b)}
+				a:(@) _ binop(<"^">) _ b:@ {expr_bin!(a BitXor b)}
 				--
 				a:(@) _ binop(<"&">) _ b:@ {expr_bin!(a BitAnd b)}
 				--
